@@ -175,9 +175,12 @@ def rule_width_presence(ctx, p, cfg, rid="A10"):
             hit = q.const_skipping_paths(f, c.block, set(), none_rets)
             r.require(not hit, "digits-read-never-no-width#%d" % i, fn=f, site=c.at, detail="after a digit was consumed Ok(None) is not reached",
                       fail_detail="after consuming a digit integer() can still answer Ok(None) (bb%s): some written width - e.g. `0` - is read as no width at all, so `{m:.0}` is not cut" % sorted(hit))
-        hit = q.const_skipping_paths(f, 0, {c.block for c in steps}, other_rets)
-        r.require(not hit, "no-digits-no-width", fn=f, detail="without consuming a digit only Ok(None) is reached",
-                  fail_detail="integer() can answer with a width or an error (bb%s) without having read a digit" % sorted(hit))
+        # ... and absence can be answered at all: Ok(None) is reachable without consuming a digit.  (That *only* Ok(None) is, is not
+        # required: a version that looks ahead first - `peek()` shows no digit: return Ok(None) - and then loops has a path, infeasible
+        # only because `peek` is idempotent, from the second look to the other returns.)
+        hit = q.const_skipping_paths(f, 0, {c.block for c in steps}, none_rets)
+        r.require(bool(hit), "no-digits-no-width", fn=f, detail="without consuming a digit Ok(None) is reached",
+                  fail_detail="integer() cannot answer Ok(None) without having read a digit: a specification without a width has no way to say so")
 
 
 def run_cfg(ctx, p, cfg):
